@@ -81,7 +81,7 @@ class OriginMap:
         return d
 
 
-def run_verus(path, rlimit=None, seed=None, timeout=600):
+def run_verus(path, rlimit=None, seed=None, timeout=400):
     cmd = ["verus", os.path.basename(path), "--output-json", "--time", "--error-format=json",
            "--multiple-errors", "5", "--num-threads", "4", "--triggers-mode", "silent"]
     if rlimit:
